@@ -209,6 +209,15 @@ class C02:
             add("unterminated", [X(u)], flagsets=allflags, vias=("buf", "fp", "file"))
             shapes.append({"schema": "mixed", "flags": 0, "via": "buf", "text": [X("i = 1\n" + u + "\nzz = 1\n")], "shape": "no-error-function", "noerr": True})
             add("unterminated-after", [X("i = 2\n" + u)], flagsets=(0, F_COMMENTS))
+        # diagnostics with long ingredients: file names (an include through a ./-padded path), option names, values;
+        # with the caller's error function and with the library's own reporting to stderr
+        for n in (10, 100, 250, 260, 300, 500, 1000, 1900):
+            longpath = "./" * n
+            for noerr in (False, True):
+                for body in ("include(\"%sinc_bad.conf\")\n" % longpath, "include(\"%smissing.conf\")\n" % longpath,
+                             "include(\"%sinc_ok.conf\")\n%s = 1\n" % (longpath, "z" * (2 * n)),
+                             "include(\"%sinc_ok.conf\")\ni = %s\n" % (longpath, "9" * (2 * n))):
+                    shapes.append({"schema": "mixed", "flags": 0, "via": "buf", "text": [X(body)], "shape": "long-diagnostic", "noerr": noerr})
         for cm in ["#", "//", "/**/", "/* */", "##", "# ", "//\n", "#\n", "/*\n*/", "/***/", "/* * */", "#\t", "// \t "]:
             for pre in ["", "i = 1\n"]:
                 for post in ["", "\n", "\ni = 3\n", " i = 3"]:
